@@ -39,6 +39,7 @@ def write_roms(
     h=None,  # (jmax, imax) or scalar
     mask=None,  # (jmax, imax)
     dx=None,  # (jmax, imax) or scalar: grid spacing [m]
+    dy=None,  # (jmax, imax) or scalar: spacing in the eta direction when it differs from dx (pn = 1/dy), default dx
     hc: float = 0.0,
     Cs_r=None,
     Cs_w=None,
@@ -74,7 +75,7 @@ def write_roms(
         var2("mask_rho", 1.0 if mask is None else mask)
         d = 1000.0 if dx is None else dx
         var2("pm", 1.0 / np.asarray(d, dtype=float))
-        var2("pn", 1.0 / np.asarray(d, dtype=float))
+        var2("pn", 1.0 / np.asarray(d if dy is None else dy, dtype=float))
         var2("angle", 0.0)
         jj, ii = np.meshgrid(np.arange(jmax), np.arange(imax), indexing="ij")
         var2("lon_rho", (0.01 * ii) if lon is None else lon)
